@@ -195,6 +195,52 @@ def gen_case(rng, open_feats):
     return '\n'.join(lines) + '\n', g.feats
 
 
+def structured_cases(rng, n):
+    """Well-defined idioms with a grid or a randomised shape each (single feature per case):
+    - paste chains a##b##...: every emptiness pattern of 2..6 operands, with and without neighbours;
+    - hide sets where the macro name and its closing parenthesis carry different histories (name produced by an argument
+      that was itself macro-expanded) - the result must still expand names that are no longer being replaced;
+    - dynamic macros (__LINE__, __COUNTER__, __FILE__) reached through several macro levels and arguments;
+    - recursion guards: self-reference, mutual recursion, painted tokens passed on as arguments."""
+    out = []
+    import itertools
+    for nops in range(2, 7):
+        for pat in itertools.product([0, 1], repeat=nops):
+            if nops >= 5 and rng.random() < 0.5:
+                continue
+            ps = [chr(97 + i) for i in range(nops)]
+            args = ','.join(('t%d' % i if pat[i] else '') for i in range(nops))
+            body = '##'.join(ps)
+            pre, post = rng.choice([('', ''), ('x ', ''), ('', ' y'), ('[', ']'), ('x ', ' y')])
+            src = '#define P(%s) %s%s%s\n> P(%s) <\n#define Q(%s) %s %s ## %s %s\n> Q(%s) <\n' % (','.join(ps), pre, body, post, args, ','.join(ps), pre, ' ## '.join(ps[:-1]), ps[-1], post, args)
+            out.append((src, {'struct:paste-chain-%d-operands' % nops}))
+    names = ['ID', 'APPLY', 'B', 'CALL', 'WRAP', 'F', 'G', 'H']
+    for i in range(n):
+        r = rng.random()
+        d = rng.randrange(1, 4)
+        wrap = lambda t: 'ID(' * d + t + ')' * d
+        if r < 0.3:
+            body = rng.choice(['ID(y) + ID(2)', 'ID(ID(y))', 'WRAP(y) ID(y)', 'ID (y) APPLY(ID)'])
+            src = ('#define ID(x) x\n#define WRAP(x) [ID(x)]\n#define APPLY(m) m(1)\n#define APPLY2(m, v) m(v) m (v)\n#define B(y) %s\n> APPLY(%s) <\n> APPLY2(%s, ID(7)) <\n> APPLY(ID) <\n' %
+                   (body, wrap('B'), wrap('B')))
+            out.append((src, {'struct:hideset-name-from-expanded-argument'}))
+        elif r < 0.5:
+            src = ('#define ID(x) x\n#define HERE __LINE__\n#define WHERE() HERE\n#define AT(x) x:WHERE():HERE:__LINE__\n#define CNT __COUNTER__\n#define C2() CNT CNT\n' +
+                   '\n' * rng.randrange(0, 5) + '> HERE WHERE() AT(q) %s <\n' % wrap('WHERE()') + '\n' * rng.randrange(0, 3) +
+                   '> C2() CNT %s __COUNTER__ <\n> AT(HERE) AT(WHERE()) <\n' % wrap('CNT'))
+            out.append((src, {'struct:dynamic-macro-through-levels'}))
+        elif r < 0.75:
+            src = ('#define ID(x) x\n#define F(x) x G(x) F(x)\n#define G(x) [x F(x) G(x)]\n#define OBJ OBJ + F\n#define OBJ2 OBJ3 F\n#define OBJ3 OBJ2 G\n' +
+                   '> F(1) G(2) OBJ OBJ2 OBJ3 <\n> %s %s <\n> F(F(3)) G(OBJ) F(OBJ2) <\n' % (wrap('F(4)'), wrap('OBJ')))
+            out.append((src, {'struct:recursion-guards'}))
+        else:
+            k = rng.randrange(1, 5)
+            src = ('#define ID(x) x\n#define EMPTY\n#define DEFER(m) m EMPTY\n#define EVAL(x) x\n#define A(x) x B\n#define B(x) A\n' +
+                   '> DEFER(ID)(1) EVAL(DEFER(ID)(2)) <\n> %s <\n> A(1)(2)(3) <\n' % ('EVAL(' * k + 'DEFER(ID)(%d)' % k + ')' * k))
+            out.append((src, {'struct:deferred-invocation'}))
+    return out
+
+
 def run_case(a):
     (idx, cc, work, src) = a
     p = os.path.join(work, 'm%d.c' % idx)
@@ -232,6 +278,7 @@ def run(ctx):
     ]
     for name, src in probes:
         cases.append((src, {'probe:' + name}))
+    cases += structured_cases(rng, ctx.scale(120, 2000))
     results = core.pmap(run_case, [(i, cc, work, c[0]) for i, c in enumerate(cases)], chunksize=16)
     for idx, res in results:
         src, feats = cases[idx]
